@@ -1059,6 +1059,11 @@ func (p *Parser) posErr(pos Pos, format string, args ...any) {
 	// 		args[i] = quotedToken(arg)
 	// 	}
 	// }
+	if pos.IsRecovered() {
+		// The token this error is about was missing and got recovered,
+		// so it has no position; point at where we are instead.
+		pos = p.pos
+	}
 	p.errPass(ParseError{
 		Filename:   p.f.Name,
 		Pos:        pos,
